@@ -84,6 +84,9 @@ def preimport():
     import xarray  # noqa: F401
 
 
+CURRENT = None  # the Zygote serving this process tree (set in the parent and inside the zygote itself)
+
+
 class Zygote:
     def __init__(self, handler_module: str, handler_name: str):
         self.dir = tempfile.mkdtemp(prefix="simflox-zygote-")
@@ -92,6 +95,7 @@ class Zygote:
         self.pid = None
 
     def start(self):
+        global CURRENT
         ppid = os.getpid()
         pid = os.fork()
         if pid:
@@ -101,9 +105,11 @@ class Zygote:
                     break
                 time.sleep(0.05)
             atexit.register(self.stop)
+            CURRENT = self
             return self
         # ---- zygote process ----
         try:
+            CURRENT = self
             signal.signal(signal.SIGINT, signal.SIG_IGN)
             warm_numbagg()
             preimport()
